@@ -261,6 +261,8 @@ namespace {
 	{
 		std::string res;
 		res.reserve(reserve);
+		// a content filter that has read the data to its end leaves the stream failed, seekg would do nothing
+		in.clear();
 		in.seekg(0);
 		std::streambuf *buf = in.rdbuf();
 		int c;
